@@ -185,6 +185,21 @@ def corpus():
     out.append(case(CT_MP, part(CD + b'name="f\x00"; filename="x\x00.bin"', b'DATA', b'\r\nContent-Type: a/b') + END,
                     access='POST'))
     out.append(case(CT_MP, part(CD + b'name="t"', b'v', b'\r\nX-Custom: a\x00b') + END))
+    # ---- "count" thresholds a hardening might add: very many tiny fields / bare separators / keys / parts (seed C12-13).
+    # (kept after the first 40 corpus cases: those are also evaluated inside Coq)
+    many = [b'&' * 2000, b'&'.join(b'k%d=%d' % (i, i) for i in range(1001)), b'a=1&' * 1500, b'a&' * 3000, b';' * 2500,
+            b'=&' * 1200, b'&'.join(b'a' for _ in range(1000))]
+    for i, b in enumerate(many):
+        out.append(case('application/x-www-form-urlencoded', b, access=['forms', 'POST', 'files'][i % 3]))
+    out.append(case('application/x-www-form-urlencoded', F.chunked(many[1], [4096]), cl=-1, chunked=True, mem=8192))
+    out.append(case('', F.chunked(many[0], [700, 900]), cl=-1, chunked=True, mem=4096, sched=[50, 3, 700] * 40))
+    out.append(case('application/json', b'{' + b','.join(b'"k%d":%d' % (i, i) for i in range(2000)) + b'}', access='forms'))
+    out.append(case('application/json', b'[' + b','.join(b'0' for _ in range(5000)) + b']', access='json'))
+    tiny = b''.join(part(CD + b'name="a"', b'v') for _ in range(1001))
+    out.append(case(CT_MP, F.chunked(tiny + END, [6000]), cl=-1, chunked=True, mem=65536))   # 1001 text parts, 6 kB pieces
+    out.append(case(CT_MP, F.chunked(b''.join(part(CD + b'name="f%d"; filename="x"' % i, b'', b'\r\nContent-Type: a/b')
+                                              for i in range(1001)) + END, [8000]), cl=-1, chunked=True, mem=16384,
+                    access='files'))
     # ---- F37: forms/json of a chunked request ignore a Content-Length sent next to it (too small / too large / 0)
     jw = F.chunked(b'{"a": 1}', [3])
     out.append(case('application/json', jw, cl=3, chunked=True, mem=64, access='json'))
@@ -365,6 +380,11 @@ def gen(rng, n):
             body = rng.choice(JSONS)
             ctype = rng.choice(CT_JSON)
             access = rng.choice(['json', 'json', 'forms', 'POST', 'files', 'body'])
+        elif r < 0.805:
+            n = rng.choice([999, 1000, 1001, 1500, 3000])
+            body = rng.choice([b'&' * n, b'a=1&' * n, b'&'.join(b'k%d=v' % i for i in range(n)), b'a;' * n, b'=&' * n])
+            ctype = rng.choice(['application/x-www-form-urlencoded', '', 'text/plain'])
+            access = rng.choice(['forms', 'POST', 'files'])
         elif r < 0.9:
             body = bytes(rng.choice(b'a=&%+;\xff\xe9 19g') for _ in range(rng.randrange(0, 30)))
             ctype = rng.choice(CT_OTHER)
